@@ -39,12 +39,33 @@ def edge_values(open_line):
     return ops
 
 
+def flush_all(open_line):
+    """FLUSHALL on a store whose keys are already in the storage backend: for 1, 2 and 7 stored keys of every type, with and
+    without deadlines, written by an earlier session or in this one: SAVE, Clear, a fresh key, Close + Open twice -
+    nothing that was flushed may come back, whatever its place in the backend's key order"""
+    ops = [open_line]
+    sets = [["api Set 6b31 76 0"],
+            ["api Set 6131 76 0", "api RPush 7a7a 61 62"],
+            ["api Set 6131 76 0", "api RPush 6c31 61 62", "api HSet 6831 66 76", "api SAdd 7331 6d", f"api ZAdd 7a31 6d {fbits(1.0)}", "api Set 7a7a7a 7a 0", "api Set 73657373 78 0",
+             "api ExpireAt 73657373 4102444800000", "api ExpireAt 6131 4102444900000"]]
+    for n, writes in enumerate(sets):
+        for earlier_session in (False, True):
+            ops += writes + ["flush"]
+            if earlier_session:
+                ops += ["ldump", "close", "reopen", "ldump"]
+            ops += ["api Clear", "dump", f"api Set 66726573683{n} 31 0", "flush"]
+            for _ in range(2):
+                ops += ["ldump", "close", "reopen", "ldump", "api Keys 2a", "api Get 6131", "api Get 6b31", "api Exists 7a7a 7a7a7a 73657373 6c31 6831 7331 7a31", "dump"]
+            ops += ["api Clear", "ldump", "close", "reopen", "ldump", "dump"]
+    return ops
+
+
 def run(ctx, proofs_ok):
     import shutil
     from checks import cleanwrite
     pdir = f"{ctx.work}/pebble-shapes"
     shutil.rmtree(pdir, ignore_errors=True)
-    ev = {"reopen": 0.06, "gc": 0.06, "flush": 0.03}
+    ev = {"reopen": 0.06, "gc": 0.06, "flush": 0.03, "api Clear": 0.004}
     apicheck.run_streams(ctx, [
         {"label": "all families with frequent close/reopen cycles (memory backend object, deterministic clock, expiry)",
          "fams": ["exp", "str", "key", "list", "hash", "set", "zset"], "n": (2500, 6000), "count": (3, 30), "ft": True,
@@ -55,10 +76,13 @@ def run(ctx, proofs_ok):
               ("the same on Pebble", shapes(f"open a pebble {pdir}"), False),
               ("empty and one-byte values of every type through eviction, reload and reopen (memory)", edge_values("open a mem"), False),
               ("empty and one-byte values of every type through eviction, reload and reopen (Pebble)", edge_values(f"open a pebble {pdir}-edge"), False),
+              ("FLUSHALL on keys that are already stored, then Close + Open (memory)", flush_all("open a mem"), False),
+              ("FLUSHALL on keys that are already stored, then Close + Open (Pebble)", flush_all(f"open a pebble {pdir}-fa"), False),
               ("writers: every writing method once on clean, just reloaded keys (own keys each; two-key commands with clean source and destination), then Close + Open (memory)", cleanwrite.table("open a mem", relative=True), True),
               ("writers-pebble: the same on Pebble", cleanwrite.table(f"open a pebble {pdir}-cw"), False),
               ("writers-deadline: the same with deadlines on every key (Pebble)", cleanwrite.table(f"open a pebble {pdir}-cwd", with_deadline=True), False)])
     shutil.rmtree(pdir + "-cw", ignore_errors=True)
     shutil.rmtree(pdir + "-cwd", ignore_errors=True)
     shutil.rmtree(pdir + "-edge", ignore_errors=True)
+    shutil.rmtree(pdir + "-fa", ignore_errors=True)
     shutil.rmtree(pdir, ignore_errors=True)
